@@ -107,7 +107,7 @@ def check_case(case, shard):
     kinked = set()
     for name, bt in idx.items():
         p0 = L.par_slice[name][0]
-        if ("histosys" in bt or "normsys" in bt) and pars[p0] in (0.0, 1.0, -1.0):
+        if ("histosys" in bt or "normsys" in bt) and min(abs(pars[p0] - bp) for bp in (0.0, 1.0, -1.0)) <= 2.5e-3:
             # exactly on a breakpoint: one-sided stencils on both sides (the objective is only C0 there for
             # codes 0/1 at alpha=0, C1 for code 2 at +-1, C2 for codes 4/4p) and an interval test
             kinked.add(p0)
@@ -250,7 +250,7 @@ def plan(tier, seed):
     if tier == "quick":
         lay = [("jax", 9)] * 6 + [("pytorch", 16)] * 5 + [("tensorflow", 9)] * 5
     else:
-        lay = [("jax", 500)] * 6 + [("pytorch", 1000)] * 5 + [("tensorflow", 500)] * 5
+        lay = [("jax", 180)] * 10 + [("pytorch", 1000)] * 5 + [("tensorflow", 500)] * 5  # (a jax process segfaults in XLA after several hundred compiled models: many short shards)
     return [{"backend": b, "n": n, "seed": seed * 8191 + i} for i, (b, n) in enumerate(lay)]
 
 
@@ -264,6 +264,12 @@ def run_shard(shard):
     shard.covered("backends", p["backend"])
     rng = random.Random(p["seed"])
     for k in range(p["n"]):
+        if p["backend"] == "jax" and k and k % 40 == 0:
+            try:
+                import jax
+                jax.clear_caches()
+            except Exception:
+                pass
         case = make_case(rng, p["backend"])
         check_case(case, shard)
         if k == 0 and shard.index in (0, 6):
